@@ -45,6 +45,7 @@ from hypothesis import strategies as st
 
 from ..engine import Clause, Violation, require
 from ..strategies import seeds, universes
+from ..common import with_history  # noqa: E402
 
 ASSUMPTIONS = [
     "row i of u / of the HySC matrix belongs to the node hypergraph.get_mapping() sends to i "
@@ -141,6 +142,7 @@ def hysc_cases(draw, tier):
 # building and running
 
 
+@with_history
 def build(case):
     from hypergraphx import Hypergraph
     labels = case["labels"]
